@@ -525,7 +525,9 @@ def run_property(prop, tier, seed, only=None, keep=False, jobs=None, replays_dir
         ["pyvc engine (AST -> SMT encoding)", "z3 4.8.12 / z3 5.1.0 / cvc5 1.0.3"]
     from pyvc.axioms import TRUSTED
     ev = {
-        "property_id": prop, "tier": tier, "seed": seed, "level": "proof",
+        "property_id": prop, "tier": tier, "seed": seed,
+        # a property decided only by bounded stand-ins is exploration, never proof
+        "level": "proof" if any(not t.options.get("bounded_only") for t in thms) else "exploration",
         "coverage": {
             "obligations": n_obl, "discharged": n_dis,
             "checker_cmd": f"./check {prop} --tier {tier}",
